@@ -38,7 +38,59 @@ def main():
                     viol.append(f'remote={remote}: table maps {t.__name__} to {r!r}, copyreg to {red!r}')
             except KeyError:
                 viol.append(f'remote={remote}: table has no entry for {t.__name__} although copyreg.dispatch_table has')
+    viol += optin_sweep()
     print(json.dumps({'violates': bool(viol), 'violations': viol[:8], 'scenario': json.loads(sys.argv[1])}))
+
+
+def optin_sweep():
+    """L3 on real classes: generated single-inheritance chains (depth <= 4) whose members define nothing / a reduce hook / a plain __getstate__ /
+    a **kwargs pass-through __getstate__ / a remote-aware __getstate__.  issubclass(C, SupportRemoteGetState) must be what the property text says:
+    no class below object defines a reduce hook and one has a remote-aware __getstate__; a remote-aware class below a plain one (more derived plain)
+    is rejected with a Warning; and a class that does not opt in pickles exactly like standard pickle."""
+    import itertools
+    out = []
+    KINDS = ('none', 'reduce', 'plain', 'varkw', 'remote')
+
+    def body(kind):
+        if kind == 'reduce':
+            return {'__reduce__': lambda self: (object.__new__, (type(self),))}
+        if kind == 'plain':
+            return {'__getstate__': lambda self: dict(self.__dict__)}
+        if kind == 'varkw':
+            return {'__getstate__': lambda self, **kw: dict(self.__dict__)}
+        if kind == 'remote':
+            return {'__getstate__': lambda self, remote=False: dict(self.__dict__, seen_remote=remote)}
+        return {}
+    n = 0
+    for depth in (1, 2, 3, 4):
+        for chain in itertools.product(KINDS, repeat=depth):
+            # chain[0] is the most derived class; build from the root
+            cls = object
+            for i, kind in enumerate(reversed(chain)):
+                cls = type(f'K{n}_{i}', (cls,), body(kind))
+            n += 1
+            mro_kinds = list(chain)         # in MRO order, object excluded
+            stop = mro_kinds.index('reduce') if 'reduce' in mro_kinds else len(mro_kinds)
+            seen_plain, warn = False, False
+            for k in mro_kinds[:stop]:
+                if k == 'remote' and seen_plain:
+                    warn = True
+                    break
+                if k == 'plain':
+                    seen_plain = True
+            expect = ('reduce' not in mro_kinds) and ('remote' in mro_kinds)
+            try:
+                got = issubclass(cls, rp.SupportRemoteGetState)
+                if warn:
+                    out.append(f'chain {chain} (most derived first): an inconsistent chain was not rejected with a Warning (answer {got})')
+                elif got != expect:
+                    out.append(f'chain {chain} (most derived first): issubclass(C, SupportRemoteGetState) is {got}, the property says {expect}')
+            except Warning:
+                if not warn:
+                    out.append(f'chain {chain} (most derived first): a consistent chain was rejected with a Warning')
+            if len(out) >= 6:
+                return out
+    return out
 
 
 if __name__ == '__main__':
